@@ -22,7 +22,11 @@ Spans also end through `complete_with` (`ok_lvl`/`err_lvl` on fns returning Ok a
 completed with `complete()` / `complete_with(..)`, `new_span!` guards dropped or completed with
 `complete_with`), and scripted PANICS unwind through chains of synchronous span fns,
 `Traceparent::push().call(..)` and `Frame::push(..).call(..)` up to a `catch_unwind`, after which
-the same thread carries on (next children, next roots).
+the same thread carries on (next children, next roots). Spans whose incoming context is established
+by the macro's `setup:` control parameter (`#[emit::span(setup: ..)]` and level-named attributes,
+sync and async): the setup fn returns a guard that pushes AND enters a sampled / unsampled /
+invalid / same-trace header (or touches nothing, as control) and is dropped when the fn returns;
+judged exactly like a header pushed by hand around the span.
 
 Oracle — a model of "the current traceparent" walked over the tree:
 
